@@ -39,7 +39,7 @@ def run():
     ck.cov['noop_words_checked'] = sum(1 for l in lines if l.startswith('{"e":"step"'))
     sw = [json.loads(l) for l in lines if l.startswith('{"e":"sweep"')]
     if sw:
-        ck.cov['sweep_divisors'] = sw[0]['divisors']
+        ck.cov['sweep_divisors'] = sum(v << (16 * i) for i, v in enumerate(sw[0]['divisors']))
     ck.cov['evaluations'] = len(lines) + r['generated']
     ck.cov['distinct_nontrivial'] = len(set(lines)) + r['distinct']
     ck.cov['rule'] = 'divisors 3,5,6,7,9, 2^k+-1, 2^k+2^(k-1), 2^32-1, 2^32-2, seeded random (incl. short ones); no-op divisors 0 and 2^0..2^31 x 8 destination registers; a sweep in C++ with 128-bit integers (quick: every 32nd divisor from a seeded offset = 2^27 divisors; thorough: all 2^32) as measured mismatch counts, tied to the TLA+ definition by the sampled events'
